@@ -930,7 +930,7 @@ fn oracle_fail(class: &str, what: &str, input: &str, text: &str) {
 fn oracle_expr(e: &MExpr, sup: bool, w: usize, text: &str) -> bool {
     let known = defect_class(e);
     let class = |generic: &'static str| known.unwrap_or(generic);
-    let input = format!("sup={} width={} {:?}", sup, w, e);
+    let input = format!("RExpr {} {}%nat {}", cbool(sup), w, cexpr(e));
     match parse_expr(text) {
         PR::Ok(back) => {
             if fold_expr(&back) != fold_expr(e) { oracle_fail(class("c08-roundtrip:different-ast"), "the printed expression parses to a different expression", &input, text); return false; }
@@ -976,14 +976,14 @@ fn lits(rng: &mut Rng, extra: usize) {
         let e = MExpr::LitI(v, signed, radix);
         match print_with(&to_expr(&e), 100) {
             Ok(text) => {
-                println!("INT\tKInt {} {} {}\t{}", cfmt(signed, radix), z(v as i64), cs(&text), one_line(&text));
+                println!("INT\tKInt {} {} {}\t{}\tRExpr false 100%nat {}", cfmt(signed, radix), z(v as i64), cs(&text), one_line(&text), cexpr(&e));
                 *hist.entry("int_literal").or_insert(0) += 1;
                 match parse_expr(&text) {
                     PR::Ok(back) if fold_expr(&back) == MExpr::LitI(v, true, 0) => {},
-                    other => oracle_fail("c08-int-roundtrip", &format!("integer literal does not read back: {:?}", other), &format!("{:?}", e), &text),
+                    other => oracle_fail("c08-int-roundtrip", &format!("integer literal does not read back: {:?}", other), &format!("RExpr false 100%nat {}", cexpr(&e)), &text),
                 }
             },
-            Err(m) => oracle_fail("c08-print-fail", &m, &format!("{:?}", e), ""),
+            Err(m) => oracle_fail("c08-print-fail", &m, &format!("RExpr false 100%nat {}", cexpr(&e)), ""),
         }
     }}}
     let mut strs: Vec<String> = STRINGS.iter().map(|s| s.to_string()).collect();
@@ -992,13 +992,13 @@ fn lits(rng: &mut Rng, extra: usize) {
         let e = MExpr::LitS(st.clone());
         match print_with(&to_expr(&e), 100) {
             Ok(text) => {
-                println!("STR\tKStr {} {}\t{}", cs(st), cs(&text), one_line(&text));
+                println!("STR\tKStr {} {}\t{}\tRExpr false 100%nat {}", cs(st), cs(&text), one_line(&text), cexpr(&e));
                 *hist.entry("string_literal").or_insert(0) += 1;
-                match parse_expr(&text) { PR::Ok(MExpr::LitS(b)) if &b == st => {}, other => oracle_fail("c08-string-roundtrip", &format!("string literal does not read back: {:?}", other), &format!("{:?}", st), &text) }
+                match parse_expr(&text) { PR::Ok(MExpr::LitS(b)) if &b == st => {}, other => oracle_fail("c08-string-roundtrip", &format!("string literal does not read back: {:?}", other), &format!("RExpr false 100%nat {}", cexpr(&e)), &text) }
                 // the dedicated LitString entry point too
-                match parse_as::<ast::LitString>(&text) { PR::Ok(l) if &l.string == st => {}, _ => oracle_fail("c08-string-roundtrip", "LitString::parse differs", &format!("{:?}", st), &text) }
+                match parse_as::<ast::LitString>(&text) { PR::Ok(l) if &l.string == st => {}, _ => oracle_fail("c08-string-roundtrip", "LitString::parse differs", &format!("RExpr false 100%nat {}", cexpr(&e)), &text) }
             },
-            Err(m) => oracle_fail("c08-print-fail", &m, &format!("{:?}", st), ""),
+            Err(m) => oracle_fail("c08-print-fail", &m, &format!("RExpr false 100%nat {}", cexpr(&e)), ""),
         }
     }
     println!("STATS\thist={:?}", hist);
@@ -1027,7 +1027,7 @@ fn floats(rng: &mut Rng, n: usize, through_parser_every: usize) {
             let t2 = if t.contains('.') { t.clone() } else { format!("{}.0", t) };
             let back = t2.parse::<f32>().map(|y| y.to_bits());
             if !shape || back != Ok(a.to_bits()) || format!("{}", x) != format!("{}{}", if b >> 31 == 1 { "-" } else { "" }, t) {
-                oracle_fail("c08-float-hypothesis", "Rust's f32 Display/parse does not satisfy the section hypothesis", &format!("bits {:#x}", b), &t);
+                oracle_fail("c08-float-hypothesis", "Rust's f32 Display/parse does not satisfy the section hypothesis", &format!("RExpr false 100%nat (FLitF {})", b), &t);
             }
         }
         k += 1;
@@ -1036,9 +1036,9 @@ fn floats(rng: &mut Rng, n: usize, through_parser_every: usize) {
             match print_with(&to_expr(&e), 100) {
                 Ok(text) => {
                     let rt = oracle_expr(&e, false, 100, &text);
-                    println!("EXPR\tKExpr {} false 100%nat {} (IOk {}) {}\t{}", float_tab(&[&e]), cexpr(&e), cs(&text), cbool(rt), one_line(&text));
+                    println!("EXPR\tKExpr {} false 100%nat {} (IOk {}) {}\t{}\tRExpr false 100%nat {}", float_tab(&[&e]), cexpr(&e), cs(&text), cbool(rt), one_line(&text), cexpr(&e));
                 },
-                Err(m) => oracle_fail("c08-print-fail", &m, &format!("{:?}", e), ""),
+                Err(m) => oracle_fail("c08-print-fail", &m, &format!("RExpr false 100%nat {}", cexpr(&e)), ""),
             }
         }
     }
@@ -1049,7 +1049,7 @@ fn pick_widths(rng: &mut Rng, all: bool) -> Vec<usize> {
     if all { (1..=200).collect() } else { WIDTHS.to_vec() }
 }
 
-fn exprs(rng: &mut Rng, n: usize, all_widths: bool, coq_widths: usize) {
+fn exprs(rng: &mut Rng, n: usize, all_widths: bool, coq_widths: usize, cases_for: usize) {
     let mut hist = Hist::new();
     let mut ndefect = 0u64;
     for i in 0..n {
@@ -1062,6 +1062,7 @@ fn exprs(rng: &mut Rng, n: usize, all_widths: bool, coq_widths: usize) {
         // the widths whose cases go to the model: the widest, and a few random ones
         let mut chosen: Vec<usize> = vec![200];
         for _ in 1..coq_widths { chosen.push(*rng.pick(&widths)); }
+        if i >= cases_for { chosen.clear(); }
         let mut seen_texts: Vec<(String, bool)> = vec![];
         for &w in &widths {
             let text = if sup { print_with(&Sup(&a), w) } else { print_with(&a, w) };
@@ -1073,11 +1074,11 @@ fn exprs(rng: &mut Rng, n: usize, all_widths: bool, coq_widths: usize) {
                         None => { let r = oracle_expr(&e, sup, w, t); seen_texts.push((t.clone(), r)); r },
                     };
                     if chosen.contains(&w) {
-                        println!("EXPR\tKExpr {} {} {}%nat {} (IOk {}) {}\t{}", float_tab(&[&e]), cbool(sup), w, cexpr(&e), cs(t), cbool(rt), one_line(t));
-                        println!("PARSE\tKParse {} {} {}\t{}", float_token_tab(t), cs(t), cpr(&parse_expr(t), cexpr), one_line(t));
+                        println!("EXPR\tKExpr {} {} {}%nat {} (IOk {}) {}\t{}\tRExpr {} {}%nat {}", float_tab(&[&e]), cbool(sup), w, cexpr(&e), cs(t), cbool(rt), one_line(t), cbool(sup), w, cexpr(&e));
+                        println!("PARSE\tKParse {} {} {}\t{}\tRParse {}", float_token_tab(t), cs(t), cpr(&parse_expr(t), cexpr), one_line(t), cs(t));
                     }
                 },
-                Err(m) => oracle_fail("c08-print-fail", m, &format!("width={} {:?}", w, e), ""),
+                Err(m) => oracle_fail("c08-print-fail", m, &format!("RExpr {} {}%nat {}", cbool(sup), w, cexpr(&e)), ""),
             }
         }
     }
@@ -1086,62 +1087,79 @@ fn exprs(rng: &mut Rng, n: usize, all_widths: bool, coq_widths: usize) {
 
 enum Top { Stmt(MStmt), Meta(MMeta), File(MFile) }
 
-fn stmts(rng: &mut Rng, n: usize, all_widths: bool, coq_widths: usize) {
+fn top_term(top: &Top, w: usize) -> String {
+    match top { Top::Stmt(s) => format!("RStmt {}%nat {}", w, cstmt(s)), Top::Meta(m) => format!("RMeta {}%nat {}", w, cmeta(m)), Top::File(f) => format!("RFile {}%nat {}", w, cfile(f)) }
+}
+struct TopInfo { cert: bool, known: Option<&'static str>, ftab: String, parser_form: bool, what: &'static str }
+fn top_info(top: &Top) -> TopInfo {
+    let mut es: Vec<&MExpr> = vec![];
+    let (callsub, what) = match top {
+        Top::Stmt(s) => { stmt_exprs(s, &mut es); (has_callsub(s), "statement") },
+        Top::Meta(m) => { meta_exprs(m, &mut es); (false, "meta") },
+        Top::File(f) => { for it in &f.items { item_exprs(it, &mut es); } (f.items.iter().any(item_has_callsub), "file") },
+    };
+    TopInfo {
+        cert: es.iter().all(|e| pr_expr(e)) && top_keys_ok(top),
+        known: if callsub { Some("c08-callsub") } else if !top_keys_ok(top) { Some("c08-meta-negative-key") } else { es.iter().filter_map(|e| defect_class(e)).next() },
+        ftab: float_tab(&es), parser_form: es.iter().all(|e| in_parser_form(e)), what,
+    }
+}
+fn meta_keys_ok(m: &MMeta) -> bool {
+    let ok = |fs: &Vec<(String, MMeta)>| fs.iter().all(|(k, v)| (valid_ident(k) || (k.bytes().all(|c| c.is_ascii_digit()) && !k.is_empty())) && meta_keys_ok(v));
+    match m { MMeta::Scalar(_) => true, MMeta::Object(fs) | MMeta::Variant(_, fs) => ok(fs), MMeta::Array(xs) => xs.iter().all(meta_keys_ok) }
+}
+fn top_keys_ok(top: &Top) -> bool {
+    match top {
+        Top::Meta(m) => meta_keys_ok(m),
+        Top::File(f) => f.items.iter().all(|i| match i { MItem::Meta { fields, .. } => meta_keys_ok(&MMeta::Object(fields.clone())), _ => true }),
+        Top::Stmt(_) => true,
+    }
+}
+fn print_top(top: &Top, w: usize) -> Result<String, String> {
+    match top { Top::Stmt(s) => print_with(&to_stmt(s), w), Top::Meta(m) => print_with(&to_meta(m), w), Top::File(f) => print_with(&to_file(f), w) }
+}
+fn emit_top(top: &Top, info: &TopInfo, w: usize, r: &Result<String, String>) {
+    let (tag, k, term) = match top { Top::Stmt(s) => ("STMT", "KStmt", cstmt(s)), Top::Meta(m) => ("META", "KMeta", cmeta(m)), Top::File(f) => ("FILE", "KFile", cfile(f)) };
+    println!("{}\t{} {} {}%nat {} {} {}\t{}\t{}", tag, k, info.ftab, w, term, ctext(r), cbool(info.cert), r.as_ref().map(|t| one_line(t)).unwrap_or_default(), top_term(top, w));
+}
+/// oracle on one printed text: parse back, compare after sign folding, text idempotence for parser-form scripts
+fn oracle_top(top: &Top, info: &TopInfo, w: usize, t: &str) {
+    let input = top_term(top, w);
+    let ok: Result<Result<String, String>, String> = match top {
+        Top::Stmt(s) => match parse_stmt(t) { PR::Ok(b) => if fold_stmt(&b) == fold_stmt(s) { Ok(print_with(&to_stmt(&b), w)) } else { Err("different-ast".to_string()) }, PR::Err => Err("parse-error".into()), PR::Panic(p) => Err(format!("parse-panic: {}", p)) },
+        Top::Meta(m) => match parse_meta(t) { PR::Ok(b) => if fold_meta(&b) == fold_meta(m) { Ok(print_with(&to_meta(&b), w)) } else { Err("different-ast".to_string()) }, PR::Err => Err("parse-error".into()), PR::Panic(p) => Err(format!("parse-panic: {}", p)) },
+        Top::File(f) => match parse_file(t) { PR::Ok(b) => if fold_file(&b) == fold_file(f) { Ok(print_with(&to_file(&b), w)) } else { Err("different-ast".to_string()) }, PR::Err => Err("parse-error".into()), PR::Panic(p) => Err(format!("parse-panic: {}", p)) },
+    };
+    match ok {
+        Ok(Ok(t2)) => {
+            if info.parser_form && !t.contains("//") && t2 != t { oracle_fail(info.known.unwrap_or("c08-idempotence"), "printing the re-parsed script gives a different text", &input, &t2); }
+        },
+        Ok(Err(m)) => oracle_fail("c08-print-fail", &m, &input, t),
+        Err(why) => oracle_fail(info.known.unwrap_or(match why.as_str() { "different-ast" => "c08-roundtrip:different-ast", "parse-error" => "c08-roundtrip:parse-error", _ => "c08-roundtrip:parse-panic" }),
+                                &format!("the printed {} does not read back: {}", info.what, why), &input, t),
+    }
+}
+fn print_fail_class(m: &str) -> &'static str { if m.contains("line break in label") { "c08-label-linebreak" } else { "c08-print-fail" } }
+
+fn stmts(rng: &mut Rng, n: usize, all_widths: bool, coq_widths: usize, cases_for: usize) {
     let mut hist = Hist::new();
     for i in 0..n {
         let top = {
             let mut g = Gen { rng, hist: &mut hist, defects: false };
             match i % 5 { 0 | 1 | 2 => Top::Stmt({ let d = g.rng.below(3) as u32; let mut s = g.stmt(d); while s.kind == MKind::NoInstr { s = g.stmt(d); } s }), 3 => Top::Meta({ let d = 1 + g.rng.below(3) as u32; g.meta(d) }), _ => Top::File(g.file()) }
         };
-        let mut es: Vec<&MExpr> = vec![];
-        let (callsub, what) = match &top {
-            Top::Stmt(s) => { stmt_exprs(s, &mut es); (has_callsub(s), "statement") },
-            Top::Meta(m) => { meta_exprs(m, &mut es); (false, "meta") },
-            Top::File(f) => { for it in &f.items { item_exprs(it, &mut es); } (f.items.iter().any(item_has_callsub), "file") },
-        };
-        let cert = es.iter().all(|e| pr_expr(e));
-        let known: Option<&'static str> = if callsub { Some("c08-callsub") } else { es.iter().filter_map(|e| defect_class(e)).next() };
-        let ftab = float_tab(&es);
+        let info = top_info(&top);
         let widths = pick_widths(rng, all_widths);
         let mut chosen: Vec<usize> = vec![200];
         for _ in 1..coq_widths { chosen.push(*rng.pick(&widths)); }
+        if i >= cases_for { chosen.clear(); }
         let mut seen_texts: Vec<String> = vec![];
         for &w in &widths {
-            let text = match &top { Top::Stmt(s) => print_with(&to_stmt(s), w), Top::Meta(m) => print_with(&to_meta(m), w), Top::File(f) => print_with(&to_file(f), w) };
-            let t = match &text { Ok(t) => t.clone(), Err(m) => {
-                let input = format!("width={} {}", w, match &top { Top::Stmt(s) => format!("{:?}", s), Top::Meta(m) => format!("{:?}", m), Top::File(f) => format!("{:?}", f) });
-                oracle_fail(if m.contains("line break in label") { "c08-label-linebreak" } else { "c08-print-fail" }, m, &input, "");
-                if chosen.contains(&w) {
-                    match &top {
-                        Top::Stmt(s) => println!("STMT\tKStmt {} {}%nat {} IPanic {}\t", ftab, w, cstmt(s), cbool(cert)),
-                        Top::Meta(m) => println!("META\tKMeta {} {}%nat {} IPanic {}\t", ftab, w, cmeta(m), cbool(cert)),
-                        Top::File(f) => println!("FILE\tKFile {} {}%nat {} IPanic {}\t", ftab, w, cfile(f), cbool(cert)),
-                    }
-                }
-                continue;
-            } };
-            let emit = |t: &str| match &top {
-                Top::Stmt(s) => println!("STMT\tKStmt {} {}%nat {} (IOk {}) {}\t{}", ftab, w, cstmt(s), cs(t), cbool(cert), one_line(t)),
-                Top::Meta(m) => println!("META\tKMeta {} {}%nat {} (IOk {}) {}\t{}", ftab, w, cmeta(m), cs(t), cbool(cert), one_line(t)),
-                Top::File(f) => println!("FILE\tKFile {} {}%nat {} (IOk {}) {}\t{}", ftab, w, cfile(f), cs(t), cbool(cert), one_line(t)),
-            };
-            if chosen.contains(&w) { emit(&t); }
-            if seen_texts.contains(&t) { continue; }
-            seen_texts.push(t.clone());
-            // oracle: parse back, compare after sign folding, re-print is stable
-            let input = format!("width={} {}", w, match &top { Top::Stmt(s) => format!("{:?}", s), Top::Meta(m) => format!("{:?}", m), Top::File(f) => format!("{:?}", f) });
-            let ok = match &top {
-                Top::Stmt(s) => match parse_stmt(&t) { PR::Ok(b) => if fold_stmt(&b) == fold_stmt(s) { Ok(print_with(&to_stmt(&b), w)) } else { Err("different-ast".to_string()) }, PR::Err => Err("parse-error".into()), PR::Panic(p) => Err(format!("parse-panic: {}", p)) },
-                Top::Meta(m) => match parse_meta(&t) { PR::Ok(b) => if fold_meta(&b) == fold_meta(m) { Ok(print_with(&to_meta(&b), w)) } else { Err("different-ast".to_string()) }, PR::Err => Err("parse-error".into()), PR::Panic(p) => Err(format!("parse-panic: {}", p)) },
-                Top::File(f) => match parse_file(&t) { PR::Ok(b) => if fold_file(&b) == fold_file(f) { Ok(print_with(&to_file(&b), w)) } else { Err("different-ast".to_string()) }, PR::Err => Err("parse-error".into()), PR::Panic(p) => Err(format!("parse-panic: {}", p)) },
-            };
-            match ok {
-                Ok(Ok(t2)) => {
-                    if es.iter().all(|e| in_parser_form(e)) && !t.contains("//") && t2 != t { oracle_fail(known.unwrap_or("c08-idempotence"), "printing the re-parsed script gives a different text", &input, &t2); }
-                },
-                Ok(Err(m)) => oracle_fail("c08-print-fail", &m, &input, &t),
-                Err(why) => oracle_fail(known.unwrap_or(match why.as_str() { "different-ast" => "c08-roundtrip:different-ast", "parse-error" => "c08-roundtrip:parse-error", _ => "c08-roundtrip:parse-panic" }),
-                                        &format!("the printed {} does not read back: {}", what, why), &input, &t),
+            let r = print_top(&top, w);
+            if chosen.contains(&w) { emit_top(&top, &info, w, &r); }
+            match &r {
+                Ok(t) => { if !seen_texts.contains(t) { seen_texts.push(t.clone()); oracle_top(&top, &info, w, t); } },
+                Err(m) => oracle_fail(print_fail_class(m), m, &top_term(&top, w), ""),
             }
         }
     }
@@ -1164,8 +1182,8 @@ fn soup(rng: &mut Rng, n: usize) {
         }
         let r = lex_real(&t);
         *hist.entry(match &r { PR::Ok(_) => "lex_ok", PR::Err => "lex_error", PR::Panic(_) => "lex_panic" }).or_insert(0) += 1;
-        if let PR::Panic(p) = &r { oracle_fail("c08-lexer-panic", p, &t, &t); }
-        println!("LEX\tKLex {} {}\t{}", cs(&t), cpr(&r, |v| format!("[{}]", v.join("; "))), one_line(&t));
+        if let PR::Panic(p) = &r { oracle_fail("c08-lexer-panic", p, &format!("RLex {}", cs(&t)), &t); }
+        println!("LEX\tKLex {} {}\t{}\tRLex {}", cs(&t), cpr(&r, |v| format!("[{}]", v.join("; "))), one_line(&t), cs(&t));
     }
     println!("STATS\tsoups={}\thist={:?}", n, hist);
 }
@@ -1193,31 +1211,298 @@ fn mutate(rng: &mut Rng, n: usize) {
         }
         let r = parse_expr(&t);
         *hist.entry(match &r { PR::Ok(_) => "parse_ok", PR::Err => "parse_error", PR::Panic(_) => "parse_panic" }).or_insert(0) += 1;
-        if let PR::Panic(p) = &r { oracle_fail("c08-parser-panic", p, &t, &t); }
-        println!("PARSE\tKParse {} {} {}\t{}", float_token_tab(&t), cs(&t), cpr(&r, cexpr), one_line(&t));
+        if let PR::Panic(p) = &r { oracle_fail("c08-parser-panic", p, &format!("RParse {}", cs(&t)), &t); }
+        println!("PARSE\tKParse {} {} {}\t{}\tRParse {}", float_token_tab(&t), cs(&t), cpr(&r, cexpr), one_line(&t), cs(&t));
     }
     println!("STATS\tmutants={}\thist={:?}", n, hist);
 }
 
-/// replay / corpus: one source text through parse -> print at every width -> parse
-fn text_mode(path: &str) {
-    let text = std::fs::read_to_string(path).expect("read");
-    let kind = if path.ends_with(".expr") { "expr" } else if path.ends_with(".stmt") { "stmt" } else { "file" };
-    let fail = |w: usize, why: &str, t: &str| oracle_fail("c08-roundtrip:text", &format!("{} (width {})", why, w), &text, t);
-    for &w in WIDTHS.iter() {
-        match kind {
-            "expr" => match parse_expr(&text) { PR::Ok(e) => { if let Ok(t) = print_with(&Sup(&to_expr(&e)), w) { if !oracle_expr(&e, true, w, &t) {} } }, _ => { println!("REJECTED\tparse"); return; } },
-            "stmt" => match parse_stmt(&text) {
-                PR::Ok(s) => match print_with(&to_stmt(&s), w) { Ok(t) => match parse_stmt(&t) { PR::Ok(b) if fold_stmt(&b) == fold_stmt(&s) => {}, _ => fail(w, "the printed statement does not read back", &t) }, Err(m) => fail(w, &m, "") },
-                _ => { println!("REJECTED\tparse"); return; } },
-            _ => match parse_file(&text) {
-                PR::Ok(f) => match print_with(&to_file(&f), w) { Ok(t) => match parse_file(&t) { PR::Ok(b) if fold_file(&b) == fold_file(&f) => {}, _ => fail(w, "the printed file does not read back", &t) }, Err(m) => fail(w, &m, "") },
-                _ => { println!("REJECTED\tparse"); return; } },
+// ---------------------------------------------------------------------------------------------
+// reader for the Coq terms this harness prints (replay files store inputs as such terms)
+
+#[derive(Debug, Clone)]
+enum T { Atom(String), Str(String), Num(i64), App(Vec<T>), Tuple(Vec<T>), List(Vec<T>) }
+
+struct Reader { cs: Vec<char>, i: usize }
+impl Reader {
+    fn ws(&mut self) { while self.i < self.cs.len() && self.cs[self.i].is_whitespace() { self.i += 1; } }
+    fn peek(&mut self) -> Option<char> { self.ws(); self.cs.get(self.i).copied() }
+    fn simple(&mut self) -> Result<T, String> {
+        match self.peek() {
+            None => Err("unexpected end".into()),
+            Some('(') => {
+                self.i += 1;
+                let mut parts = vec![self.app()?];
+                while self.peek() == Some(',') { self.i += 1; parts.push(self.app()?); }
+                if self.peek() != Some(')') { return Err(format!("expected ) at {}", self.i)); }
+                self.i += 1;
+                Ok(if parts.len() == 1 { parts.pop().unwrap() } else { T::Tuple(parts) })
+            },
+            Some('[') => {
+                self.i += 1;
+                let mut items = vec![];
+                if self.peek() == Some(']') { self.i += 1; return Ok(T::List(items)); }
+                loop {
+                    items.push(self.app()?);
+                    match self.peek() { Some(';') => { self.i += 1; }, Some(']') => { self.i += 1; break; }, _ => return Err(format!("expected ; or ] at {}", self.i)) }
+                }
+                Ok(T::List(items))
+            },
+            Some('"') => {
+                self.i += 1;
+                let mut out = String::new();
+                while self.i < self.cs.len() && self.cs[self.i] != '"' { out.push(self.cs[self.i]); self.i += 1; }
+                self.i += 1;
+                Ok(T::Str(out))
+            },
+            Some(c) if c == '-' || c.is_ascii_digit() => {
+                let st = self.i; self.i += 1;
+                while self.i < self.cs.len() && self.cs[self.i].is_ascii_digit() { self.i += 1; }
+                let n: String = self.cs[st..self.i].iter().collect();
+                if self.cs[self.i..].starts_with(&['%', 'n', 'a', 't']) { self.i += 4; }
+                n.parse::<i64>().map(T::Num).map_err(|e| e.to_string())
+            },
+            Some(c) if c.is_alphabetic() || c == '_' => {
+                let st = self.i;
+                while self.i < self.cs.len() && (self.cs[self.i].is_alphanumeric() || self.cs[self.i] == '_') { self.i += 1; }
+                Ok(T::Atom(self.cs[st..self.i].iter().collect()))
+            },
+            Some(c) => Err(format!("unexpected {:?} at {}", c, self.i)),
         }
     }
-    println!("STATS\ttext={}", kind);
+    fn app(&mut self) -> Result<T, String> {
+        let mut parts = vec![self.simple()?];
+        loop { match self.peek() { None | Some(')') | Some(']') | Some(';') | Some(',') => break, _ => parts.push(self.simple()?) } }
+        Ok(if parts.len() == 1 { parts.pop().unwrap() } else { T::App(parts) })
+    }
+}
+fn read_term(s: &str) -> Result<T, String> { let mut r = Reader { cs: s.chars().collect(), i: 0 }; let t = r.app()?; if r.peek().is_some() { return Err("trailing input".into()); } Ok(t) }
+
+type R<X> = Result<X, String>;
+fn head<'a>(t: &'a T) -> (&'a str, &'a [T]) {
+    match t { T::Atom(a) => (a.as_str(), &[]), T::App(v) => match &v[0] { T::Atom(a) => (a.as_str(), &v[1..]), _ => ("", &[]) }, _ => ("", &[]) }
+}
+fn t_z(t: &T) -> R<i64> { match t { T::Num(n) => Ok(*n), _ => Err(format!("number expected: {:?}", t)) } }
+fn t_bool(t: &T) -> R<bool> { match head(t).0 { "true" => Ok(true), "false" => Ok(false), _ => Err(format!("bool expected: {:?}", t)) } }
+fn t_str(t: &T) -> R<String> {
+    match t {
+        T::Str(s) => Ok(s.clone()),
+        _ => match head(t) { ("sb", [T::List(bs)]) => { let bytes: R<Vec<u8>> = bs.iter().map(|b| t_z(b).map(|n| n as u8)).collect(); String::from_utf8(bytes?).map_err(|e| e.to_string()) }, _ => Err(format!("string expected: {:?}", t)) },
+    }
+}
+fn t_list<X>(t: &T, f: impl Fn(&T) -> R<X>) -> R<Vec<X>> { match t { T::List(v) => v.iter().map(f).collect(), _ => Err(format!("list expected: {:?}", t)) } }
+fn t_opt<X>(t: &T, f: impl Fn(&T) -> R<X>) -> R<Option<X>> { match head(t) { ("None", []) => Ok(None), ("Some", [x]) => f(x).map(Some), _ => Err(format!("option expected: {:?}", t)) } }
+fn t_pair<X, Y>(t: &T, f: impl Fn(&T) -> R<X>, g: impl Fn(&T) -> R<Y>) -> R<(X, Y)> { match t { T::Tuple(v) if v.len() == 2 => Ok((f(&v[0])?, g(&v[1])?)), _ => Err(format!("pair expected: {:?}", t)) } }
+fn t_sigil(t: &T) -> R<Option<char>> { t_opt(t, |x| match head(x).0 { "SgI" => Ok('$'), "SgF" => Ok('%'), _ => Err("sigil".into()) }) }
+fn t_var(t: &T) -> R<MVar> {
+    match head(t) { ("VNamed", [s, n]) => Ok(MVar::Named(t_sigil(s)?, t_str(n)?)), ("VReg", [s, r]) => Ok(MVar::Reg(t_sigil(s)?, t_z(r)? as i32)), _ => Err(format!("var expected: {:?}", t)) }
+}
+fn t_expr(t: &T) -> R<MExpr> {
+    let b = |x: &T| t_expr(x).map(Box::new);
+    Ok(match head(t) {
+        ("FTern", [c, l, r]) => MExpr::Tern(b(c)?, b(l)?, b(r)?),
+        ("FBin", [a, op, c]) => MExpr::Bin(b(a)?, t_str(op)?, b(c)?),
+        ("FUn", [op, x]) => MExpr::Un(t_str(op)?, b(x)?),
+        ("FXcr", [p, i, v]) => MExpr::Xcr { pre: t_bool(p)?, inc: t_bool(i)?, var: t_var(v)? },
+        ("FVar", [v]) => MExpr::Var(t_var(v)?),
+        ("FCall", [n, ps, args]) => MExpr::Call(
+            match head(n) { ("CNormal", [s]) => MName::Normal(t_str(s)?), ("CIns", [o]) => MName::Ins(t_z(o)? as u16), _ => return Err("cname".into()) },
+            t_list(ps, |p| t_pair(p, t_str, t_expr))?, t_list(args, t_expr)?),
+        ("FDiff", [cs]) => MExpr::Diff(t_list(cs, |c| t_opt(c, t_expr))?),
+        ("FLitI", [v, f]) => match head(f) { ("IF", [s, r]) => MExpr::LitI(t_z(v)? as i32, t_bool(s)?, match head(r).0 { "RDec" => 0, "RHex" => 1, "RBin" => 2, _ => 3 }), _ => return Err("intfmt".into()) },
+        ("FLitF", [b]) => MExpr::LitF(t_z(b)? as u32),
+        ("FLitS", [s]) => MExpr::LitS(t_str(s)?),
+        ("FLabelProp", [k, l]) => MExpr::LabelProp(t_str(k)?, t_str(l)?),
+        ("FEnum", [a, c]) => MExpr::Enum(t_str(a)?, t_str(c)?),
+        _ => return Err(format!("expr expected: {:?}", t)),
+    })
+}
+fn t_jump(t: &T) -> R<MJump> { match head(t) { ("JBreak", []) => Ok(MJump::Break), ("JGoto", [d, tm]) => Ok(MJump::Goto(t_str(d)?, t_opt(tm, |x| t_z(x).map(|n| n as i32))?)), _ => Err("jump".into()) } }
+fn t_block(t: &T) -> R<MBlock> { t_list(t, t_stmt) }
+fn t_stmt(t: &T) -> R<MStmt> {
+    let (dl, k) = match head(t) { ("Stmt", [dl, k]) => (t_opt(dl, t_str)?, k), _ => return Err(format!("stmt expected: {:?}", t)) };
+    let i32o = |x: &T| t_z(x).map(|n| n as i32);
+    let kind = match head(k) {
+        ("SItem", [i]) => MKind::Item(Box::new(t_item(i)?)),
+        ("SJump", [j]) => MKind::Jump(t_jump(j)?),
+        ("SReturn", [v]) => MKind::Return(t_opt(v, t_expr)?),
+        ("SCondJump", [kw, c, j]) => MKind::CondJump(t_str(kw)?, t_expr(c)?, t_jump(j)?),
+        ("SLoop", [b]) => MKind::Loop(t_block(b)?),
+        ("SCondChain", [cbs, els]) => MKind::CondChain(
+            t_list(cbs, |cb| match cb { T::Tuple(v) if v.len() == 3 => Ok((t_str(&v[0])?, t_expr(&v[1])?, t_block(&v[2])?)), _ => Err("cond block".into()) })?, t_opt(els, t_block)?),
+        ("SWhile", [d, c, b]) => MKind::While { do_: t_bool(d)?, cond: t_expr(c)?, block: t_block(b)? },
+        ("STimes", [cl, n, b]) => MKind::Times { clobber: t_opt(cl, t_var)?, count: t_expr(n)?, block: t_block(b)? },
+        ("SExpr", [e]) => MKind::Expr(t_expr(e)?),
+        ("SBlock", [b]) => MKind::Block(t_block(b)?),
+        ("SAssign", [v, op, e]) => MKind::Assign(t_var(v)?, t_str(op)?, t_expr(e)?),
+        ("SDecl", [ty, vars]) => MKind::Decl(t_str(ty)?, t_list(vars, |p| t_pair(p, t_var, |e| t_opt(e, t_expr)))?),
+        ("SCallSub", [a, asy, f, args]) => MKind::CallSub { at: t_bool(a)?, async_: t_opt(asy, |x| t_opt(x, t_expr))?, func: t_str(f)?, args: t_list(args, t_expr)? },
+        ("SLabel", [l]) => MKind::Label(t_str(l)?),
+        ("SInterrupt", [e]) => MKind::Interrupt(t_expr(e)?),
+        ("SAbsTime", [x]) => MKind::AbsTime(i32o(x)?),
+        ("SRelTime", [e, c]) => MKind::RelTime(t_expr(e)?, t_opt(c, i32o)?),
+        ("SNoInstr", []) => MKind::NoInstr,
+        _ => return Err(format!("stmt kind expected: {:?}", k)),
+    };
+    Ok(MStmt { diff_label: dl, kind })
+}
+fn t_fields(t: &T) -> R<Vec<(String, MMeta)>> { t_list(t, |p| t_pair(p, t_str, t_meta)) }
+fn t_meta(t: &T) -> R<MMeta> {
+    Ok(match head(t) {
+        ("MScalar", [e]) => MMeta::Scalar(t_expr(e)?), ("MObject", [f]) => MMeta::Object(t_fields(f)?),
+        ("MArray", [xs]) => MMeta::Array(t_list(xs, t_meta)?), ("MVariant", [n, f]) => MMeta::Variant(t_str(n)?, t_fields(f)?),
+        _ => return Err(format!("meta expected: {:?}", t)),
+    })
+}
+fn t_item(t: &T) -> R<MItem> {
+    Ok(match head(t) {
+        ("IFunc", [q, ty, n, ps, code]) => MItem::Func { qual: t_opt(q, t_str)?, ty: t_str(ty)?, ident: t_str(n)?, params: t_list(ps, |p| t_pair(p, t_str, |x| t_opt(x, t_str)))?, code: t_opt(code, t_block)? },
+        ("IScript", [num, n, code]) => MItem::Script { number: t_opt(num, |x| t_z(x).map(|n| n as i32))?, ident: t_str(n)?, code: t_block(code)? },
+        ("IMeta", [kw, f]) => MItem::Meta { kw: t_str(kw)?, fields: t_fields(f)? },
+        ("IConst", [ty, vars]) => MItem::Const { ty: t_str(ty)?, vars: t_list(vars, |p| t_pair(p, t_var, t_expr))? },
+        _ => return Err(format!("item expected: {:?}", t)),
+    })
+}
+fn t_file(t: &T) -> R<MFile> {
+    match head(t) { ("File", [m, i, items]) => Ok(MFile { mapfiles: t_list(m, t_str)?, image_sources: t_list(i, t_str)?, items: t_list(items, t_item)? }), _ => Err(format!("file expected: {:?}", t)) }
 }
 
+/// one input through print -> oracle, and the model cases
+fn run_input(term: &str) -> R<()> {
+    let t = read_term(term)?;
+    match head(&t) {
+        ("RExpr", [sup, w, e]) => {
+            let (sup, w, e) = (t_bool(sup)?, t_z(w)? as usize, t_expr(e)?);
+            let a = to_expr(&e);
+            let r = if sup { print_with(&Sup(&a), w) } else { print_with(&a, w) };
+            match &r {
+                Ok(text) => {
+                    let rt = oracle_expr(&e, sup, w, text);
+                    println!("EXPR\tKExpr {} {} {}%nat {} (IOk {}) {}\t{}\t{}", float_tab(&[&e]), cbool(sup), w, cexpr(&e), cs(text), cbool(rt), one_line(text), term);
+                    println!("PARSE\tKParse {} {} {}\t{}\tRParse {}", float_token_tab(text), cs(text), cpr(&parse_expr(text), cexpr), one_line(text), cs(text));
+                },
+                Err(m) => { oracle_fail(print_fail_class(m), m, term, ""); println!("EXPR\tKExpr {} {} {}%nat {} {} false\t\t{}", float_tab(&[&e]), cbool(sup), w, cexpr(&e), ctext(&r), term); },
+            }
+        },
+        ("RStmt", [w, x]) | ("RMeta", [w, x]) | ("RFile", [w, x]) => {
+            let w = t_z(w)? as usize;
+            let top = match head(&t).0 { "RStmt" => Top::Stmt(t_stmt(x)?), "RMeta" => Top::Meta(t_meta(x)?), _ => Top::File(t_file(x)?) };
+            let info = top_info(&top);
+            let r = print_top(&top, w);
+            emit_top(&top, &info, w, &r);
+            match &r { Ok(text) => oracle_top(&top, &info, w, text), Err(m) => oracle_fail(print_fail_class(m), m, term, "") }
+        },
+        ("RLex", [s]) => { let s = t_str(s)?; let r = lex_real(&s); if let PR::Panic(p) = &r { oracle_fail("c08-lexer-panic", p, term, &s); } println!("LEX\tKLex {} {}\t{}\t{}", cs(&s), cpr(&r, |v| format!("[{}]", v.join("; "))), one_line(&s), term); },
+        ("RParse", [s]) => { let s = t_str(s)?; let r = parse_expr(&s); if let PR::Panic(p) = &r { oracle_fail("c08-parser-panic", p, term, &s); } println!("PARSE\tKParse {} {} {}\t{}\t{}", float_token_tab(&s), cs(&s), cpr(&r, cexpr), one_line(&s), term); },
+        // a source text: parse it, then every width
+        ("RText", [kind, s]) => {
+            let (kind, s) = (t_str(kind)?, t_str(s)?);
+            for &w in WIDTHS.iter() {
+                match kind.as_str() {
+                    "expr" => match parse_expr(&s) { PR::Ok(e) => run_input(&format!("RExpr true {}%nat {}", w, cexpr(&e)))?, _ => { println!("REJECTED\tparse"); return Ok(()); } },
+                    "stmt" => match parse_stmt(&s) { PR::Ok(x) => run_input(&top_term(&Top::Stmt(x), w))?, _ => { println!("REJECTED\tparse"); return Ok(()); } },
+                    "meta" => match parse_meta(&s) { PR::Ok(x) => run_input(&top_term(&Top::Meta(x), w))?, _ => { println!("REJECTED\tparse"); return Ok(()); } },
+                    _ => match parse_file(&s) { PR::Ok(x) => run_input(&top_term(&Top::File(x), w))?, _ => { println!("REJECTED\tparse"); return Ok(()); } },
+                }
+            }
+        },
+        _ => return Err(format!("unknown input term: {}", &term[..term.len().min(80)])),
+    }
+    Ok(())
+}
+
+/// the minimal instances of the defects known on the unchanged tree (DESIGN section 6, #11, #12, #17 and the
+/// ones found while building this check); they go through the same oracle as everything else
+const KNOWN_DEFECT_INPUTS: [&str; 17] = [
+    r#"RExpr true 100%nat (FUn "-" (FLitI (-3) (IF true RDec)))"#,
+    r#"RText "stmt" "x = -2147483648;""#,
+    r#"RExpr true 100%nat (FUn "-" (FXcr true false (VNamed None "x")))"#,
+    r#"RExpr true 100%nat (FUn "-" (FLitF 4286578688))"#,
+    r#"RExpr true 100%nat (FUn "-" (FLitF 3217031168))"#,
+    r#"RExpr true 100%nat (FUn "!" (FVar (VNamed None "X")))"#,
+    r#"RText "stmt" "x = ! Easy;""#,
+    r#"RExpr false 100%nat (FUn "!" (FLitI 4 (IF true RDec)))"#,
+    r#"RExpr true 100%nat (FUn "!" (FLitI (-3) (IF true RDec)))"#,
+    r#"RExpr true 100%nat (FUn "~" (FLitI (-3) (IF true RDec)))"#,
+    r#"RExpr true 100%nat (FLitF 2143289345)"#,
+    r#"RExpr true 100%nat (FLitF 4290772992)"#,
+    r#"RText "stmt" "x = rad (5);""#,
+    r#"RText "stmt" "x = rad (5, y);""#,
+    r#"RText "stmt" "@foo(@mask=1, 2);""#,
+    r#"RText "stmt" "interrupt[f(1, 2)]:""#,
+    r#"RText "meta" "{ 4294967295: 1 }""#,
+];
+
+// ---------------------------------------------------------------------------------------------
+// scripts the decompiler produces: sample binaries, and compiled corpus scripts
+
+fn game_of(name: &str) -> Option<truth::Game> {
+    let n = name.strip_prefix("th")?;
+    let digits: String = n.chars().take_while(|c| c.is_ascii_digit()).collect();
+    digits.trim_start_matches('0').parse::<truth::Game>().ok().or_else(|| digits.parse::<truth::Game>().ok())
+}
+fn decompile_binary(path: &std::path::Path) -> Result<ast::ScriptFile, String> {
+    let name = path.file_name().unwrap().to_string_lossy().to_string();
+    let ext = path.extension().map(|e| e.to_string_lossy().to_string()).unwrap_or_default();
+    let game = game_of(&name).ok_or("no game in file name")?;
+    let map = format!("{}/map/any.{}m", repo_root(), ext);
+    catch(|| -> Result<ast::ScriptFile, String> {
+        let mut scope = truth::Builder::new().capture_diagnostics(true).build();
+        let mut truth = scope.truth();
+        truth.load_mapfile(std::path::Path::new(&map), game).map_err(|_| "mapfile".to_string())?;
+        let mut truth = truth.validate_defs().map_err(|_| "validate".to_string())?;
+        let opts = truth::DecompileOptions::new();
+        match ext.as_str() {
+            "anm" => { let f = truth.read_anm(game, path, false).map_err(|_| "read")?; truth.decompile_anm(game, &f, &opts).map_err(|_| "decompile".to_string()) },
+            "std" => { let f = truth.read_std(game, path).map_err(|_| "read")?; truth.decompile_std(game, &f, &opts).map_err(|_| "decompile".to_string()) },
+            "msg" => { let f = truth.read_msg(game, truth::LanguageKey::Msg, path).map_err(|_| "read")?; truth.decompile_msg(game, truth::LanguageKey::Msg, &f, &opts).map_err(|_| "decompile".to_string()) },
+            _ => Err("unsupported extension".into()),
+        }
+    }).unwrap_or_else(|p| Err(format!("panic: {}", p)))
+}
+/// compile an ANM script (optional sibling mapfile <name>.anmm), decompile the result
+fn compile_then_decompile(path: &std::path::Path) -> Result<ast::ScriptFile, String> {
+    let game = truth::Game::Th12;
+    let map = path.with_extension("").with_extension("anmm");
+    catch(|| -> Result<ast::ScriptFile, String> {
+        let mut scope = truth::Builder::new().capture_diagnostics(true).build();
+        let mut truth = scope.truth();
+        if map.exists() { truth.load_mapfile(&map, game).map_err(|_| "mapfile".to_string())?; }
+        let script = truth.read_script(path).map_err(|_| "read_script".to_string())?;
+        let mut truth = truth.validate_defs().map_err(|_| "validate".to_string())?;
+        let w = truth.compile_anm(game, &script).map_err(|_| "compile".to_string())?;
+        let f = truth.finalize_anm(game, w).map_err(|_| "finalize".to_string())?;
+        truth.decompile_anm(game, &f, &truth::DecompileOptions::new()).map_err(|_| "decompile".to_string())
+    }).unwrap_or_else(|p| Err(format!("panic: {}", p)))
+}
+fn decomp(paths: &[String]) {
+    let mut n_ok = 0; let mut n_rej = 0;
+    for p in paths {
+        let path = std::path::Path::new(p);
+        let r = if p.ends_with(".spec") { compile_then_decompile(path) } else { decompile_binary(path) };
+        match r {
+            Ok(file) => {
+                n_ok += 1;
+                let top = Top::File(from_file(&file));
+                let info = top_info(&top);
+                let mut seen: Vec<String> = vec![];
+                for &w in WIDTHS.iter() {
+                    // print the decompiler's own AST (with its spans, offsets comments and ids), not the mirror's
+                    let r = print_with(&file, w);
+                    let rm = print_top(&top, w);
+                    if r != rm { oracle_fail("c08-harness-mirror", "the mirror AST prints differently from the decompiler's AST", &top_term(&top, w), r.as_deref().unwrap_or("")); }
+                    if w == 100 || w == 20 { emit_top(&top, &info, w, &r); }
+                    match &r {
+                        Ok(t) => { if !seen.contains(t) { seen.push(t.clone()); oracle_top(&top, &info, w, t); } },
+                        Err(m) => oracle_fail(print_fail_class(m), m, &top_term(&top, w), ""),
+                    }
+                }
+            },
+            Err(why) => { n_rej += 1; println!("REJECTED\t{}\t{}", why, p); },
+        }
+    }
+    println!("STATS\tdecompiled={}\trejected={}", n_ok, n_rej);
+}
 fn main() {
     let args: Vec<String> = std::env::args().collect();
     truth::setup_for_test_harness();
@@ -1229,11 +1514,19 @@ fn main() {
         Some("lexlines") => { use std::io::BufRead; for l in std::io::stdin().lock().lines() { let l = l.unwrap(); let t = l.replace("\\n", "\n"); println!("{:?} => {:?} parse={:?}", t, lex_real(&t), parse_expr(&t)); } },
         Some("lits") => lits(&mut rng, num(2, 8)),
         Some("floats") => floats(&mut rng, num(2, 6000), num(3, 40)),
-        Some("exprs") => exprs(&mut rng, num(2, 100), all, num(3, 2)),
-        Some("stmts") => stmts(&mut rng, num(2, 100), all, num(3, 2)),
+        Some("exprs") => exprs(&mut rng, num(2, 100), all, num(3, 2), num(4, usize::MAX)),
+        Some("stmts") => stmts(&mut rng, num(2, 100), all, num(3, 2), num(4, usize::MAX)),
         Some("soup") => soup(&mut rng, num(2, 100)),
         Some("mutate") => mutate(&mut rng, num(2, 100)),
-        Some("text") => text_mode(&args[2]),
+        Some("text") => {
+            let path = &args[2];
+            let text = std::fs::read_to_string(path).expect("read");
+            let kind = if path.ends_with(".expr") { "expr" } else if path.ends_with(".stmt") { "stmt" } else if path.ends_with(".meta") { "meta" } else { "file" };
+            if let Err(m) = run_input(&format!("RText {} {}", cs(kind), cs(&text))) { println!("HARNESS-ERROR\t{}", m); std::process::exit(3); }
+        },
+        Some("input") => { let term = std::fs::read_to_string(&args[2]).expect("read"); if let Err(m) = run_input(term.trim()) { println!("HARNESS-ERROR\t{}", m); std::process::exit(3); } },
+        Some("decomp") => decomp(&args[2..]),
+        Some("defects") => { for t in KNOWN_DEFECT_INPUTS.iter() { if let Err(m) = run_input(t) { println!("HARNESS-ERROR\t{}\t{}", m, t); std::process::exit(3); } } println!("STATS\tdefect_inputs={}", KNOWN_DEFECT_INPUTS.len()); },
         _ => { eprintln!("usage: c08 lits [extra] | floats <n> <every> | exprs <n> <coqwidths> [allwidths] | stmts <n> <coqwidths> [allwidths] | soup <n> | mutate <n> | text <file> | probe"); std::process::exit(2); },
     }
 }
